@@ -229,6 +229,12 @@ bool Model::replaceUnits(size_t index, const UnitsPtr &units)
 {
     bool status = false;
     if ((units != nullptr) && removeUnits(index)) {
+        // Prevent the new units from being listed by two models: move it here.
+        if (units->hasParent()) {
+            auto otherParent = std::dynamic_pointer_cast<Model>(units->parent());
+            otherParent->removeUnits(units);
+        }
+        index = std::min(index, pFunc()->mUnits.size());
         pFunc()->mUnits.insert(pFunc()->mUnits.begin() + ptrdiff_t(index), units);
         units->pFunc()->setParent(shared_from_this());
         status = true;
